@@ -19,7 +19,7 @@ PROPERTY = 'C03'
 ASSUMPTIONS = [
     'protocol object real; transport = list-recording double; state 7 uses the real makeConnection (PROTOCOLINFO outstanding)',
     'the partial next line is delivered through the real dataReceived so the line buffer is non-empty at the loss',
-    'a disconnect notification counts as delivered when its Deferred fires (callback or errback)',
+    'a disconnect notification is delivered when its Deferred fires once with the disconnect failure',
     'retry: every failing command re-submits one command from its errback (re-entrancy into queue_command during the loss)',
 ]
 BOUNDS = {'quick': {'pre_loss_states': 8, 'post_loss_commands': '0..3 (plain/callback)', 'when_disconnected_requests': '0..2 before, 0..2 after',
@@ -97,6 +97,8 @@ def _loss(st, nbytes, clean, m, kinds, wb, wa, retry=False):
     for i, o in enumerate(wd):
         if o.fired != 1:
             return R('disconnect-notification-fired-%d-times' % o.fired, 'request #%d (%d before, %d after)', i, wb, wa)
+        if not (o.err == 1 and isinstance(o.exc(), TorDisconnectError)):
+            return R('disconnect-notification-does-not-carry-the-disconnect-error', 'request #%d (%d before, %d after): ok=%d value %r', i, wb, wa, o.ok, o.value)
     if boot is not None:
         if boot.fired != 1 or boot.err != 1:
             return R('ready-notification-not-failed-once', 'ok=%d err=%d', boot.ok, boot.err)
